@@ -280,11 +280,11 @@ def flatten_schedules(path, out):
 def c09(ctx):
     quick = ctx.tier == "quick"
     mc_search(ctx)
-    shards = 3 if quick else 8
+    shards = 3 if quick else 6
 
     def one(i):
         out = ctx.path("sched_%d.ndjson" % i)
-        summ = harness(["search-sched", out, "--seed", ctx.seed * 100 + i, "--positions", 4 if quick else 50, "--schedules", 9 if quick else 27,
+        summ = harness(["search-sched", out, "--seed", ctx.seed * 100 + i, "--positions", 4 if quick else 12, "--schedules", 9 if quick else 27,
                         "--depth", 3 + (i % 2), "--max-extra", 4 if i % 2 == 0 else 3, "--log-schedules", 3 if quick else 9], timeout=14000)
         return i, out, summ
 
